@@ -173,6 +173,14 @@ func runChild(cfg hx.Config) error {
 			controlledAt(r, hx.NewRand(seed), sc, lim, false, k)
 			swept++
 		}
+		sf := *sc
+		sf.api = "match"
+		seed = rnd.U64()
+		n = controlledMatch(r, hx.NewRand(seed), &sf, lim, -1)
+		for k := 0; k <= n && !r.Stop() && !tooManyHangs() && !tooManyStucks(); k++ {
+			controlledMatch(r, hx.NewRand(seed), &sf, lim, k)
+			swept++
+		}
 		se := enrichScenario(rnd, func(string) {})
 		if len(se.enrichers) > 5 {
 			se.enrichers = se.enrichers[:2+rnd.Intn(4)]
@@ -282,14 +290,23 @@ func runCorpus(r *hx.Run, rnd *hx.Rand, dir string) error {
 		for rep := 0; rep < 4; rep++ {
 			runScenario(r, rnd, sc, []int{1, 2 + rnd.Intn(3), 5 + rnd.Intn(12)}, "corpus="+name)
 		}
-		if sc.api != "match" && sc.ctx == "live" && len(sc.enrichers) == 0 {
+		if sc.api == "match" && sc.ctx == "live" {
+			for _, lim := range []int{1, 2, 3, 8} {
+				if !tooManyStucks() && !tooManyHangs() {
+					controlledMatch(r, rnd, sc, lim, -1)
+				}
+			}
+		}
+		if sc.api != "match" && sc.api != "new" && sc.ctx == "live" && len(sc.enrichers) == 0 {
 			cancels := false
 			for _, m := range sc.matchers {
 				cancels = cancels || m.cancel
 			}
 			if !cancels {
 				for _, lim := range []int{1, 2, 3, 8} {
-					controlled(r, rnd, sc, lim, false)
+					if !tooManyStucks() && !tooManyHangs() {
+						controlled(r, rnd, sc, lim, false)
+					}
 				}
 			}
 		}
